@@ -120,10 +120,14 @@ impl Generator {
         verbose: bool,
     ) -> Result<GenerateResult> {
         let start = Instant::now();
+        #[cfg(kaspar030_laze_verif)]
+        crate::verif_oracle::event("run", &[]);
 
         match GenerateResult::try_from(&self) {
             Ok(cached) => {
                 println!("laze: reading cache took {:?}.", start.elapsed());
+                #[cfg(kaspar030_laze_verif)]
+                crate::verif_oracle::event("cache_hit", &[]);
                 return Ok(cached);
             }
             Err(x) => println!("laze: reading cache: {x}"),
@@ -414,6 +418,8 @@ fn configure_build(
         }
     } {
         println!("{}", reason);
+        #[cfg(kaspar030_laze_verif)]
+        crate::verif_oracle::event("nobuild", &[&builder.name, &binary.name, "notallowed"]);
         return Ok(reason.into());
     }
 
@@ -427,6 +433,8 @@ fn configure_build(
             contexts.context_by_id(binary.context_id.unwrap()).name,
         ));
         println!("{}", reason);
+        #[cfg(kaspar030_laze_verif)]
+        crate::verif_oracle::event("nobuild", &[&builder.name, &binary.name, "notancestor"]);
         return Ok(reason.into());
     }
 
@@ -440,11 +448,15 @@ fn configure_build(
                 binary.name, builder.name, seen_in.name,
             ));
             println!("{}", reason);
+            #[cfg(kaspar030_laze_verif)]
+            crate::verif_oracle::event("nobuild", &[&builder.name, &binary.name, "shadowed"]);
             return Ok(reason.into());
         }
     }
 
     println!("configuring {} for {}", binary.name, builder.name);
+    #[cfg(kaspar030_laze_verif)]
+    crate::verif_oracle::event("configuring", &[&builder.name, &binary.name]);
 
     // create build instance (binary A for builder X)
     let build = Build::new(binary, builder, contexts, select);
@@ -469,6 +481,8 @@ fn configure_build(
         Err(e) => {
             reason.msg(format!("laze: not building {:?}", e));
             println!("{}", reason);
+            #[cfg(kaspar030_laze_verif)]
+            crate::verif_oracle::event("nobuild", &[&builder.name, &binary.name, "unresolved"]);
             return Ok(reason.into());
         }
         Ok(val) => val,
@@ -622,6 +636,8 @@ fn configure_build(
                     binary.name, builder.name
                 ));
                 println!("{}", reason);
+                #[cfg(kaspar030_laze_verif)]
+                crate::verif_oracle::event("nobuild", &[&builder.name, &binary.name, "cycle"]);
                 return Ok(reason.into());
             }
         }
